@@ -68,17 +68,18 @@ inductive Run
   | fl (fs : List Stage)
 deriving DecidableEq, Repr
 
+def consCh (c : Changer) : List Run → List Run
+  | .ch cs :: more => .ch (c :: cs) :: more
+  | more => .ch [c] :: more
+def consFl (s : Stage) : List Run → List Run
+  | .fl fs :: more => .fl (s :: fs) :: more
+  | more => .fl [s] :: more
+
 /-- maximal runs of stages of one kind: `renewMainAfter[i] = changesLabels(i) != changesLabels(i+1)` -/
 def groupRuns : List StageX → List Run
   | [] => []
-  | .ch c :: rest =>
-    match groupRuns rest with
-    | .ch cs :: more => .ch (c :: cs) :: more
-    | more => .ch [c] :: more
-  | .fl s :: rest =>
-    match groupRuns rest with
-    | .fl fs :: more => .fl (s :: fs) :: more
-    | more => .fl [s] :: more
+  | .ch c :: rest => consCh c (groupRuns rest)
+  | .fl s :: rest => consFl s (groupRuns rest)
 
 /-! ### the labels column -/
 /-- `ParserPlanner.json/regexp`, `PlannerDrop` applied in order to the labels expression; `rid` = next `ctx.Id()`
